@@ -75,7 +75,7 @@ W_CHOICES = [1.0, 3.0, 0.5, 2.0]
 
 
 def gen_cfg(r, tier, dims=(1, 2, 2, 2, 3, 3, 4), versions=(6, 6, 6, 2, 3, 7, 8), boundary_p=0.7, rebal_p=0.5,
-            estimator="keyed", max_evals=None):
+            estimator="keyed", max_evals=None, focus_p=0.1):
     dim = r.choice(dims)
     lmin = r.choice([1, 1, 1, 2, 2, 3] if dim <= 3 else [1, 1, 2])
     lmax = lmin + r.choice([1, 1, 1, 2, 2, 3] if dim <= 2 else [1, 1, 2])
@@ -110,7 +110,7 @@ def gen_cfg(r, tier, dims=(1, 2, 2, 2, 3, 3, 4), versions=(6, 6, 6, 2, 3, 7, 8),
             if r.random() < 0.5:
                 cfg.update(dim=r.choice([1, 2]), lmin=3, lmax=r.choice([3, 4]), safety=r.choice([0.0, 0.1]))
                 cfg["a"], cfg["b"] = cfg["a"][:cfg["dim"]], cfg["b"][:cfg["dim"]]
-    if max_evals is None and not cfg.get("long_narrow") and r.random() < 0.1:
+    if max_evals is None and not cfg.get("long_narrow") and r.random() < focus_p:
         # sharply localised driver: per dimension the interval containing one target point is refined step after step while the
         # rest of the dimension stays at its initial depth (lmax raised repeatedly next to untouched regions), from start
         # levels with lmax - lmin >= 2
@@ -118,7 +118,10 @@ def gen_cfg(r, tier, dims=(1, 2, 2, 2, 3, 3, 4), versions=(6, 6, 6, 2, 3, 7, 8),
         lmin = r.choice([1, 1, 2])
         cfg.update(dim=dim, lmin=lmin, lmax=lmin + (r.choice([2, 2, 3]) if dim == 2 else 2), margin=r.choice([0.9, 1.0]), mode="mix",
                    evals=r.randint(3, 6 if tier == "quick" else 8), max_intervals=90, focus=True, p_tie=0.0,
-                   bias=["focus", [r.choice([0.1, 0.3, 0.3, 0.55, 0.8, 0.95]) for _ in range(dim)], r.choice([0.0, 0.01, 0.3])])
+                   bias=["focus", [r.choice([0.1, 0.3, 0.3, 0.55, 0.8, 0.95]) for _ in range(dim)], r.choice([0.0, 0.01, 0.3])] +
+                        (["uneven"] if r.random() < 0.5 else []))
+        if len(cfg["bias"]) > 3:
+            cfg["evals"] = r.randint(4, 8 if tier == "quick" else 11)
         cfg["a"] = (cfg["a"] + [0.0] * dim)[:dim]
         cfg["b"] = [x + r.choice(W_CHOICES) for x in cfg["a"]]
     # benefit scale and answers placed just below / just above the margin fraction of the largest answer: the selection rule
